@@ -364,9 +364,10 @@ def apply_contract(ex, contract, fr, args, kwargs, st, node, bound_self=None):
             for cl in contract.exsures_[cls]:
                 if not cl.internal:
                     s2.assume(cl.fn(a, excv, cx))
-        if ex.feasible is None or ex.feasible(s2.pc):
+        if ex.feasible is None or len(s2.pc) == len(base.pc) or ex.feasible(s2.pc):
             out.append(Exc(excv, s2))
     s1 = base
+    n_before = len(base.pc)
     if contract.effects:
         contract.effects(a, s1, "return")
     assumptions = []
@@ -380,11 +381,17 @@ def apply_contract(ex, contract, fr, args, kwargs, st, node, bound_self=None):
     if contract.assume_at_call_sites:
         for cl in contract.ensures_:
             if not cl.internal:
-                s1.assume(cl.fn(a, res, cx))
+                f = cl.fn(a, res, cx)
+                if f is False:
+                    # a postcondition that is concretely false at a call site would silently delete the
+                    # normal-return path (vacuous proofs): it is a clause about the callee's own log
+                    # that must be marked internal, or a contract error
+                    raise Unsupported(f"contract clause {cl.name} is concretely false at call site of {contract.qualname} (mark it internal?)")
+                s1.assume(f)
     for cl in contract.assumed_:
         s1.assume(cl.fn(a, res, cx))
     # ghost record of what the callee returned (clauses of the caller may refer to it)
     s1.emit("CallResult", contract.qualname, res, a)
-    if ex.feasible is None or ex.feasible(s1.pc):
+    if ex.feasible is None or len(s1.pc) == n_before or ex.feasible(s1.pc):
         out.append(Val(res, s1))
     return out
